@@ -9,11 +9,91 @@ import (
 	c "github.com/aml-org/amf-custom-validator/pkg/config"
 )
 
+// verifRichProfile uses most of the profile language, so that the write-set lemma covers the
+// parser's and generator's code for it: declared prefixes (one overriding a built-in one, one
+// new), every connective, quantified and nested constraints, path operators, scalar sets,
+// comparisons, a message with a placeholder and embedded Rego.
+const verifRichProfile = `#%Validation Profile 1.0
+profile: Rich
+prefixes:
+  ex: http://example.org/vocab#
+  core: http://example.org/core#
+violation:
+  - v1
+  - v3
+warning:
+  - v2
+info:
+  - v4
+validations:
+  v1:
+    message: "value {{ex.a}} of 100%"
+    targetClass: ex.C
+    propertyConstraints:
+      ex.a / ex.b | ex.c^:
+        minCount: 1
+        pattern: "^a"
+      core.name:
+        in: [a, b]
+        datatype: xsd.string
+      ex.n:
+        maxInclusive: 5
+        lessThanProperty: ex.m
+  v2:
+    message: m2
+    targetClass: apiContract.EndPoint
+    not:
+      or:
+        - propertyConstraints:
+            ex.items:
+              nested:
+                propertyConstraints:
+                  ex.a:
+                    minLength: 2
+        - propertyConstraints:
+            ex.items:
+              atLeast:
+                count: 1
+                validation:
+                  propertyConstraints:
+                    ex.b:
+                      containsSome: [x, y]
+  v3:
+    message: m3
+    targetClass: ex.D
+    if:
+      propertyConstraints:
+        ex.a:
+          minCount: 1
+    then:
+      propertyConstraints:
+        ex.b:
+          uniqueValues: true
+    else:
+      propertyConstraints:
+        ex.c:
+          maxCount: 0
+  v4:
+    message: m4
+    targetClass: ex.C
+    rego: |
+      $result = true
+`
+
+var verifProfilesC10 = append(append([]string{}, verifProfiles...), verifRichProfile)
+
 // VerifC10WriteSet: no entry point performs an unsynchronised store to package-level
 // state (two concurrent calls doing so would be a data race by the Go memory model).
-func VerifC10WriteSet() {
+func VerifC10WriteSet() { verifWriteSet("C10.no-unsynchronised-global-write") }
+
+// VerifC06NoHiddenState: the same lemma read for C06/C09 - an entry point that stores nothing
+// into package-level state (the generated-identifier counter apart, which never reaches a
+// report) cannot make a later call with the same inputs answer differently.
+func VerifC06NoHiddenState() { verifWriteSet("C06.no-hidden-state") }
+
+func verifWriteSet(label string) {
 	ep := v.Choice("entry", 4)
-	prof := verifProfiles[v.Choice("profile", len(verifProfiles))]
+	prof := verifProfilesC10[v.Choice("profile", len(verifProfilesC10))]
 	v.Scope("v")
 	v.TrackWrites(true)
 	verifGuard(func() {
@@ -36,12 +116,12 @@ func VerifC10WriteSet() {
 	for _, w := range v.WriteLog() {
 		v.Note("write", w)
 	}
-	v.Assert("C10.no-unsynchronised-global-write", v.GlobalWrites() == 0)
+	v.Assert(label, v.GlobalWrites() == 0)
 }
 
 // VerifC10WriteSetNative: concurrent calls under the race detector.
 func VerifC10WriteSetNative() {
-	prof := verifProfiles[v.ReplayInt("profile")]
+	prof := verifProfilesC10[v.ReplayInt("profile")]
 	data := `{"@id": "http://x/a", "@type": "http://a.ml/vocabularies/apiContract#EndPoint"}`
 	var wg sync.WaitGroup
 	for g := 0; g < 8; g++ {
@@ -59,4 +139,35 @@ func VerifC10WriteSetNative() {
 		}()
 	}
 	wg.Wait()
+}
+
+// VerifC06NoHiddenStateNative: a probe validation that relies on the built-in prefixes gives the
+// same report before and after the offending call ran in the same process.
+func VerifC06NoHiddenStateNative() {
+	const probeProfile = `#%Validation Profile 1.0
+profile: Probe
+violation:
+  - p1
+validations:
+  p1:
+    message: probe
+    targetClass: apiContract.EndPoint
+    propertyConstraints:
+      core.name:
+        minCount: 1
+      shacl.name:
+        maxCount: 0
+`
+	const probeData = `{"@id": "http://x/a", "@type": "http://a.ml/vocabularies/apiContract#EndPoint", "http://a.ml/vocabularies/core#name": "n"}`
+	label := "C06.no-hidden-state"
+	prof := verifProfilesC10[v.ReplayInt("profile")]
+	before, _ := ValidateWithConfiguration(probeProfile, probeData, false, nil, c.TestValidationConfiguration{}, c.DefaultReportConfiguration())
+	verifGuard(func() {
+		compiled, cerr := CompileProfile(prof, false, nil)
+		if cerr == nil {
+			ValidateCompiled(compiled, probeData, false, nil)
+		}
+	})
+	after, _ := ValidateWithConfiguration(probeProfile, probeData, false, nil, c.TestValidationConfiguration{}, c.DefaultReportConfiguration())
+	v.Assert(label, before == after)
 }
